@@ -10,6 +10,7 @@ from . import facts
 from .common import Report, finish
 
 PROPS = {
+    "C01": "analysis.props.p_c01",
     "C06": "analysis.props.p_c06",
     "C11": "analysis.props.p_c11",
     "C12": "analysis.props.p_c12",
